@@ -54,9 +54,9 @@ def main():
                 i = r.stdout.splitlines().index(viol[0]); first = r.stdout.splitlines()[i-1].strip()[:150] if i else ""
             if status == "HARNESS-ERROR": first = (r.stdout + r.stderr)[-300:]
             rows.append((m["id"], m["property"], status + (" " + suite if suite else ""), round(time.time() - t, 1), first))
+            print(*rows[-1], sep=" | ", flush=True)
         finally:
             shutil.rmtree(d, ignore_errors=True)
-    for row in rows: print(*row, sep=" | ")
     bad = [r for r in rows if not r[2].startswith("caught")]
     print("%d mutants, %d not caught" % (len(rows), len(bad)))
     # leave the evidence of the unchanged tree untouched? no: evidence is rewritten by every run; re-run checks afterwards.
